@@ -17,7 +17,7 @@ use crate::c03::{make_seed, seed_points};
 use crate::family;
 use crate::mutate::{Fam, MutSpace};
 
-pub const C06_FAMS: [Fam; 10] = [Fam::BitFlip, Fam::ByteValue, Fam::Truncate, Fam::Trailing, Fam::FieldValue, Fam::Resize, Fam::ElemValue, Fam::Swap, Fam::CountPair, Fam::Gkr];
+pub const C06_FAMS: [Fam; 11] = [Fam::BitFlip, Fam::ByteValue, Fam::Truncate, Fam::Trailing, Fam::FieldValue, Fam::Resize, Fam::ElemValue, Fam::Swap, Fam::CountPair, Fam::Gkr, Fam::Consistent];
 
 struct Hostile<'a> {
     st: &'a Statement,
